@@ -167,16 +167,16 @@ FunctionKey::execute(
 
                     DOMServices::getNodeData(*theNodeSet.item(i), executionContext, ref);
 
-                    if (0 != ref.length())
-                    {
-                        getNodeSet(
-                            executionContext,
-                            context,
-                            keyname,
-                            ref,
-                            locator,
-                            *theNodeRefList.get());
-                    }
+                    // A node whose string-value is empty is looked up
+                    // like any other: keys can have the empty string as
+                    // a value.
+                    getNodeSet(
+                        executionContext,
+                        context,
+                        keyname,
+                        ref,
+                        locator,
+                        *theNodeRefList.get());
 
                     ref.clear();
                 }
